@@ -7,7 +7,7 @@
 static const char *w_name = "ptr";
 static unsigned w_prop_bit(const char *id) { return !strcmp(id, "C05") ? PC05 : !strcmp(id, "C20") ? PC20 : 0; }
 
-#define NSP 4
+#define NSP 5
 #define NWP 3
 #define NUP 2
 #define MAXA 16
@@ -44,13 +44,14 @@ static const char *w_counter_names[] = { "last_owner_released", "last_reference_
                                           "retarget_of_pointer_that_owns", "share_or_from_with_empty_source", "states_where_weak_outlives_owners", "unique_release", "unique_reset_with_clear", "weak_references_dropped_inside_the_clear_callback", NULL };
 
 static int USE_MACRO;      /* odd configurations build the pointer objects with the CSTL_*_PTR_INITIALIZER macros instead of the init functions */
-static int w_nconfigs(int thorough) { return thorough ? 5 : 4; }
+static int w_nconfigs(int thorough) { return thorough ? 6 : 4; }
 static void w_setup(int cfg, int thorough)
 {
     int i, j, w;
     SELFW = cfg == (thorough ? 4 : 3); USE_MACRO = cfg & 1;
     MODE = cfg == 1; NS = cfg >= 2 ? 4 : 3; NW = cfg == 3 ? 3 : 2;
     if (SELFW) { NS = thorough ? 4 : 3; NW = 2; }
+    if (thorough && cfg == 5) { NS = 5; NW = 3; }
     w_nops = 0;
     if (!MODE) {
         snprintf(cfgdesc, sizeof cfgdesc, "%d shared + %d weak pointer objects, allocations with clear callback%s, alloc(0), share/lock into occupied pointers", NS, NW, SELFW ? " that resets the weak pointers referring to its own allocation" : "");
